@@ -1,5 +1,6 @@
 (* line protocol (one session per line):
-     <prestamp 0|1> <override 0|1> <cmax> <r1> <r2> [<later> ...]
+     <prestamp 0|1> <override 0|1> <cmax> <k1> <k2> <r1> <r2> [<later> ...]
+   k1 / k2: number of KEEPALIVEs the reader sends while the query / the switch is unanswered
    reaction  r ::= R:<cb>:<mb>:<st> | E:<st> | W:<typ> | O | G | N
    later     l ::= Q<typ>:<hexpayload or empty> | A
    answer:   <proceeds|fails> <version> <neg frames> <later frames>
@@ -48,9 +49,11 @@ let () =
       if line <> "" then begin
         try
           match String.split_on_char ' ' line with
-          | ps :: ov :: cmax :: r1 :: r2 :: ls ->
+          | ps :: ov :: cmax :: k1 :: k2 :: r1 :: r2 :: ls ->
             let cfg = { prestamp = (ps = "1"); writer_overrides = (ov = "1") } in
-            let (r, lf) = session cfg (ni cmax) (reaction r1) (reaction r2) (List.map later ls) in
+            let rec nat_of_int i = if i <= 0 then O else S (nat_of_int (i - 1)) in
+            let (r, lf) = session_ka cfg (ni cmax) (nat_of_int (int_of_string k1)) (nat_of_int (int_of_string k2))
+                (reaction r1) (reaction r2) (List.map later ls) in
             Printf.printf "%s %d %s %s\n"
               (match r.n_outcome with Proceeds -> "proceeds" | Fails -> "fails")
               (int_of_n r.n_version) (show_frames r.n_frames) (show_frames lf)
